@@ -133,15 +133,17 @@ impl RStdPath {
     }
 
     /// Well-formed in the sense of the data-plane spec: segment lengths are a non-empty prefix
-    /// (Seg1Len>0 ⇒ Seg0Len>0, Seg2Len>0 ⇒ Seg1Len>0), CurrHF < total hops, CurrINF is the segment
-    /// containing CurrHF.
+    /// (Seg1Len>0 ⇒ Seg0Len>0, Seg2Len>0 ⇒ Seg1Len>0), at most 64 hop fields, CurrHF < total hops,
+    /// CurrINF is the segment containing CurrHF.
     pub fn well_formed(&self) -> bool {
         let [a, b, c] = self.seg_len;
         if a == 0 || (b == 0 && c != 0) {
             return false;
         }
         let nh = Self::n_hops(self.seg_len);
-        if self.curr_hf as usize >= nh {
+        // CurrHF is a 6-bit field: a path whose hop fields cannot all be addressed by it is not a
+        // usable SCION path (the reference router implementation caps paths at 64 hop fields)
+        if nh > 64 || self.curr_hf as usize >= nh {
             return false;
         }
         self.segment_of(self.curr_hf as usize) == Some(self.curr_inf as usize)
